@@ -25,7 +25,13 @@ def all_specs(D):
     base = iczoo.base_specs(D)
     wrap = [dict(name="Scaled", inner=base[0], scale=2.5), dict(name="Scaled", inner=base[3], scale=-0.5), dict(name="Clamping", inner=base[1], limits=[-0.5, 1.5]),
             dict(name="Clamping", inner=base[-3], limits=[0.2, 1.7]), dict(name="Scaled", inner=dict(name="Clamping", inner=base[2], limits=[0.0, 1.0]), scale=3.0),
-            dict(name="MultiChannel", inner=[base[0], base[2], base[-2]]), dict(name="MultiChannel", inner=[base[3], base[3], dict(name="Scaled", inner=base[-4], scale=2.0)])]
+            dict(name="MultiChannel", inner=[base[0], base[2], base[-2]]), dict(name="MultiChannel", inner=[base[3], base[3], dict(name="Scaled", inner=base[-4], scale=2.0)]),
+            # function-form sub-generators only (3 to 5 channels): the function form of the wrapper must build every channel
+            dict(name="MultiChannel", inner=[dict(name="RandomDiscontinuities", kw=dict(num_discontinuities=2, zero_mean=True)), dict(name="RandomGaussianBlobs", kw=dict(num_blobs=2)),
+                                            dict(name="RandomGaussianBlobs", kw=dict(num_blobs=1, one_complement=True))]),
+            dict(name="MultiChannel", inner=[dict(name="RandomGaussianBlobs", kw=dict(num_blobs=1)), dict(name="Scaled", inner=dict(name="RandomDiscontinuities", kw=dict(num_discontinuities=3)), scale=-1.5),
+                                            dict(name="RandomDiscontinuities", kw=dict(num_discontinuities=1)), dict(name="RandomGaussianBlobs", kw=dict(num_blobs=3)),
+                                            dict(name="RandomDiscontinuities", kw=dict(num_discontinuities=2, zero_mean=True, max_one=True))])]
     return base + wrap
 
 
@@ -103,6 +109,14 @@ def run_gen(case, bus, ex):
                 bus.judge("normalisation", abs(float(np.max(np.abs(u))) - 1.0), tolm * 4, sig + ("max_one",), sample=dict(info, clause="max|u| == 1"), witness=dict(winfo, clause="max|u| == 1", max=float(np.max(np.abs(u)))))
             if zero_mean:
                 bus.judge("normalisation", abs(float(np.mean(u))) / amp, tolm * 4, sig + ("zero_mean",), witness=dict(winfo, clause="mean == 0", mean=float(np.mean(u))))
+        # ---- normalisation against the un-normalised twin of the same key: u == raw / std(raw)  resp.  raw / max|raw|, elementwise (offsets and zero-mean settings kept)
+        if "inner" not in spec and (kw.get("std_one") or kw.get("max_one")):
+            twin = dict(name=n, kw={k: v for k, v in kw.items() if k not in ("std_one", "max_one")})
+            raw = np.asarray(iczoo.build(ex, D, twin)(N, key=key)).astype(np.float64)
+            if np.all(np.isfinite(raw)) and float(np.max(raw) - np.min(raw)) > 1e-12 * (1 + float(np.max(np.abs(raw)))):
+                expect = raw / (np.std(raw) if kw.get("std_one") else np.max(np.abs(raw)))
+                bus.judge("normalisation", float(np.max(np.abs(u - expect))) / (float(np.max(np.abs(expect))) + 1e-300), tolm * 8, sig + ("twin",),
+                          sample=dict(info, clause="u == normalised un-normalised twin"), witness=dict(winfo, clause="u == raw/std or raw/max of the same draw", maxdev=float(np.max(np.abs(u - expect)))))
         # ---- requested offset: mean equals the offset drawn from the documented key split
         if n == "RandomTruncatedFourierSeries" and "offset_range" in kw and not kw.get("max_one") and not kw.get("std_one"):
             _, offset_key = jax.random.split(key)
